@@ -27,8 +27,18 @@ Definition owner (c : col) : option col :=
   else if (N.eqb c 11 || (N.leb 15 c && N.leb c 20))%bool then Some 10%N
   else if (N.leb 31 c && N.leb c 41)%bool then Some 30%N
   else None.
+(* the columns that survive into the converted Predicate: an IN whose items are all EMPTY bound containers becomes the
+   literal False (Predicate.logical_or() of nothing) and its member disappears *)
+Definition empty_seq (it : item) : bool := match it with ISeq [] => true | _ => false end.
+Fixpoint lpred_cols (e : expr) : list col :=
+  match e with
+  | EIn a its _ => if forallb empty_seq its then [] else cols_of a ++ flat_map item_cols its
+  | ENot a => lpred_cols a
+  | EAnd a b | EOr a b => lpred_cols a ++ lpred_cols b
+  | _ => cols_of e
+  end.
 Definition joinable (kc : list col) (e : expr) : bool :=
-  forallb (fun c => match owner c with Some k => existsb (N.eqb k) (kc ++ cols_of e) | None => true end) (cols_of e).
+  forallb (fun c => match owner c with Some k => existsb (N.eqb k) (kc ++ lpred_cols e) | None => true end) (lpred_cols e).
 
 Definition legacy_compile (known : list value) := lcompile iskey l_governed l_gov known.
 Definition legacy_gov := lgov iskey l_gov.
